@@ -370,8 +370,11 @@ theorem known_hosts_absent (hm : Str → Str → Str → Option Bool) (lines : L
 /-! ## a lookup is a function of (file, name): independent of every earlier lookup on the object -/
 
 /-- the call graphs below `SSHConfig.lookup` and `SSHKnownHosts.lookup` store nothing on `self`, the class or
-    module globals (generated from the AST; a cache added to a lookup path breaks this theorem) -/
-theorem lookup_paths_store_nothing : cfgLookupWrites = [] ∧ khLookupWrites = [] := by decide
+    module globals, and base_driver.py (the caller of `ssh_config_factory(...).lookup`) stores nothing through
+    the shared objects it is handed (generated from the AST; a cache added to a lookup path, or a write onto
+    a returned Host, breaks this theorem) -/
+theorem lookup_paths_store_nothing :
+    cfgLookupWrites = [] ∧ khLookupWrites = [] ∧ driverLookupWrites = [] := by decide
 
 theorem khHistory_aux (hm : Str → Str → Str → Option Bool) (d : Dict (Str × Str)) (names : List Str) :
     ∀ acc : List (Except Err (Option (Str × Str))),
